@@ -57,13 +57,18 @@ def check(run):
                     break
         run.bounded.append({"what": "native sensor_model on generic models (1..3 readings, unequal noise) vs exact rational textbook update; reading = prediction; inputs unmodified", "bound": f"{len(shapes)} shapes x 2 readings", "failures": fails, "counted_as_proved": False})
 
-    from checks.ekf_common import stateful_sweep
+    from checks.ekf_common import dtype_sweep, stateful_sweep
 
+    dtype_sweep(run, "C05", ("posterior",))
     stateful_sweep(run, "C05", ('update',), run.tier == "thorough" or any(r.status != "ok" for r in run.reports) or bool(run.undecided) or bool(run.findings))
 
 
 def replay_file(payload):
     inp = payload["inputs"]
+    if inp.get("dtypes"):
+        from checks.ekf_common import replay_dtypes
+
+        return replay_dtypes(inp)
     if inp.get("magnitude_jacobians"):
         from checks.ekf_common import replay_magnitude
 
